@@ -36,7 +36,7 @@ SAFE_METHODS = {
     str: {"encode", "isdigit", "isalpha", "isalnum", "isnumeric", "isidentifier", "isspace", "join", "strip", "lstrip", "rstrip", "format", "startswith", "endswith", "split", "replace", "upper", "lower", "partition"},
     int: {"bit_length", "to_bytes"},
     list: {"index", "count", "copy", "append", "extend", "insert", "pop", "clear", "remove", "reverse", "sort"},
-    set: {"union", "intersection", "difference", "issubset", "issuperset", "copy"},
+    set: {"union", "intersection", "difference", "issubset", "issuperset", "copy", "add", "discard", "update", "remove", "clear"},
     frozenset: {"union", "intersection", "difference", "issubset", "issuperset"},
     tuple: {"index", "count"},
     dict: {"get", "keys", "values", "items", "setdefault", "update", "pop", "popitem", "copy", "clear"},
@@ -501,8 +501,14 @@ class Evaluator:
 
     def _handle(self, st: ast.Try, name: str, env: dict[str, Any], exc: BaseException):
         chain_ = [name]
-        while chain_[-1] in self._EXC_PARENTS:
-            chain_.append(self._EXC_PARENTS[chain_[-1]])
+        extra = env.get("__exc_parents__") or self.env.get("__exc_parents__") or {}
+        i_ = 0
+        while i_ < len(chain_):  # closure over the (possibly multiple) bases: the built-in table plus the repository's own exception classes
+            cur = chain_[i_]
+            for par in ([self._EXC_PARENTS[cur]] if cur in self._EXC_PARENTS else []) + list(extra.get(cur, [])):
+                if par not in chain_:
+                    chain_.append(par)
+            i_ += 1
         chain_ += ["Exception", "BaseException"]
         for h in st.handlers:
             types = [] if h.type is None else ([norm(e).split(".")[-1] for e in h.type.elts] if isinstance(h.type, ast.Tuple) else [norm(h.type).split(".")[-1]])
